@@ -10,6 +10,7 @@ import AM.Spec.AuditProc
 import AM.Model.Workers
 import AM.Model.Handoff
 import AM.Model.Daemon
+import AM.Model.AuditLine
 /-! `amdriver <mode> [property]`: runs the executable model on cases read from stdin, one per line,
 prints the model's canonical observation, the verdict of the property's executable `Spec` on it
 and — when the case carries the implementation's observation (`obs=`) — the verdict on that. -/
@@ -308,6 +309,44 @@ def cbLine (f : List String) : String :=
       | none => "-"
       | some o => if o == "same-as-sequential" then "ok" else "FAIL:concurrent-deliveries-render-differently"
     s!"{id} same-as-sequential spec=ok ispec={isp} dom=1 nt=1"
+  | _ => "!badline"
+
+/-- C07, audit side: `<id> <hexline>,<hexline>,… [obs=<direct>~<with newline>~<through the pipe>,…]`.
+The model's observation of a line is what `AuditLine.split` makes of it; the implementation's direct
+observation `S:<type>|<raw message>|<ns>|<seq>` agrees with it when type name and trimmed message are the
+same (a line the header parse rejects — `E` — is consistent with any split). -/
+def auLine (f : List String) : String :=
+  match f with
+  | id :: ls :: rest =>
+    let lines := (ls.splitOn ",").map fun h => (ofHex h).getD []
+    let obs := match kv rest "obs" with
+      | some o => (o.splitOn ",").map fun (t : String) => t.splitOn "~"
+      | none => []
+    let rend := fun (l : Str) => match AuditLine.split l with
+      | none => "E"
+      | some (t, m) => s!"S:{toHex t}|{toHex m}"
+    let per := (List.range lines.length).map fun i =>
+      let l := lines.getD i []
+      let m := rend l
+      match obs[i]? with
+      | some [d, n, p] =>
+        -- `UNKNOWN[n]` is how auparse names a numeric type it has no name for, however the line spelled it
+        let dparts := (d.drop 2).toString.splitOn "|"
+        let mparts := (m.drop 2).toString.splitOn "|"
+        let sameMsg := dparts.length ≥ 2 && mparts.length ≥ 2 && dparts[1]? == mparts[1]?
+        let consistent := d == "E" || (m != "E" && (d.startsWith m ||
+          (sameMsg && (dparts.headD "").startsWith (toHex "UNKNOWN[".toList))))
+        let shown := if consistent then d else m
+        let v := if n != d then "FAIL:the-terminator-changes-what-the-line-parses-to"
+                 else if p != d then "FAIL:the-record-through-the-pipe-parses-differently"
+                 else "ok"
+        (shown, v, d != "E")
+      | _ => (m, "-", m != "E")
+    let isp := match per.find? fun x => x.2.1 != "ok" && x.2.1 != "-" with
+      | some x => x.2.1
+      | none => if obs.isEmpty then "-" else "ok"
+    let nl := lines.all fun l => rend (l ++ ['\n']) == rend l
+    s!"{id} {String.intercalate "," (per.map (·.1))} spec={if nl then "ok" else "FAIL:model"} ispec={isp} dom=1 nt={if per.any (·.2.2) then "1" else "0"}"
   | _ => "!badline"
 
 /-- C15: `<id> <failat:-|k> <op;op;…> [obs=…]` -/
@@ -627,6 +666,7 @@ def main (args : List String) : IO UInt32 := do
   | ["c07"] => loop stdin stdout c07Line; return 0
   | ["conc"] => loop stdin stdout concLine; return 0
   | ["cbconc"] => loop stdin stdout cbLine; return 0
+  | ["auline"] => loop stdin stdout auLine; return 0
   | ["health"] => loop stdin stdout healthLine; return 0
   | ["dir"] => loop stdin stdout dirLine; return 0
   | ["pipe"] => loop stdin stdout pipeLine; return 0
